@@ -1,3 +1,9 @@
+(* ADDED IN THE THIRD ROUND (CrashCore1-3.v, CrashClear1-4.v, ReadOnly.v): the composition over ALL FOUR stores and core_open — every cut of an
+   append, a clear, creation, recovery itself and make_read_only reopens to before/after with a crash-tolerant invariant re-established;
+   histories with crashes (C02_append_every_cut_recovers_*, C02_clear_every_cut_recovers, C02_history_with_crashes*, C02_creation_every_cut_recovers,
+   C02_make_read_only_every_cut_recovers_all_stores). The remark 'Partial: the tree store, bitfield store and data store are not part of these
+   theorems' below applies to the older oplog-level theorems only. Still not proved: cuts of proof application on replicas.
+   ---- header of the earlier rounds: ---- *)
 (* C02 — a crash between any two storage operations recovers to the before-or-after state (pinned statements,
    generated from the types Coq reports for the lemmas of Crash.v; see also props/C08.v for the bitfield and
    contiguous-length replay and props/C01.v for the journal order of an append).
@@ -14,7 +20,9 @@
    of the tree is argued in DESIGN 5.1; the bitfield part is C08_replay_exact); the composition with
    Hypercore::new over all four stores is decided on every run by tools/c02.py, which recovers every crash
    point of every generated history on the crate and on the model under the before-or-after oracle. *)
+From HC Require Import ClearRefine Unified1 Unified3 CrashClear1 CrashClear2 CrashClear3 CrashClear4.
 From HC Require Import Base NMap Codec CodecFacts Crypto Storage Bitfield Oplog OplogFacts StorageFacts Crash.
+From HC Require Import FlatTree Merkle Core Refine Reopen CrashCore1 CrashCore2 CrashCore3 ReadOnly.
 
 Theorem C02_stable_state_reopens :
   forall cr : crypto,
@@ -180,6 +188,406 @@ Theorem C02_real_headers_fit_a_slot :
          len (ht_root_hash (hd_tree h)) <= 32 -> len (ht_signature (hd_tree h)) <= 64 -> hdr_fits false h.
 Proof. exact hdr_fits_real. Qed.
 
+Theorem C02_append_every_cut_recovers_all_stores :
+  forall cr : crypto,
+         crc_ok cr ->
+         (forall x : bytes, Datatypes.length (cr_hash cr x) = 32%nat) ->
+         (forall x : bytes, all_zero (cr_hash cr x) = false) ->
+         (forall x : bytes, bytes_ok (cr_hash cr x) = true) ->
+         (forall sk m : bytes, Datatypes.length (cr_sign cr sk m) = 64%nat) ->
+         (forall sk m : bytes, bytes_ok (cr_sign cr sk m) = true) ->
+         forall (f : option bool) (batch : list bytes) (c : core) (d : disk) (j : list sop) 
+           (ev : list event) (bs : list bytes) (sk : bytes) (c' : core) (w' : world) 
+           (x : N * N) (delta : list sop),
+         DInv cr c d bs ->
+         kp_secret (c_keypair c) = Some sk ->
+         sumN (map len (bs ++ batch)) <= u64_max ->
+         NODE_SIZE * (2 * N.of_nat (Datatypes.length (bs ++ batch))) <= u64_max ->
+         core_append cr f batch c {| w_disk := d; w_journal := j; w_events := ev |} = (c', w', Ok x) ->
+         w_journal w' = rev delta ++ j ->
+         forall k : nat,
+         exists dk : disk,
+           apply_sops d (firstn k delta) = Some dk /\
+           (exists (ck : core) (dk' : disk) (ops : list sop),
+              core_open cr None true dk = (dk', ops, Ok ck) /\
+              (XInv cr ck dk' bs \/ XInv cr ck dk' (bs ++ batch)) /\
+              c_keypair ck = c_keypair c /\ c_skip ck = 0).
+Proof. exact append_cut_recovers. Qed.
+
+Theorem C02_append_every_cut_recovers_iterated :
+  forall cr : crypto,
+         crc_ok cr ->
+         (forall x : bytes, Datatypes.length (cr_hash cr x) = 32%nat) ->
+         (forall x : bytes, all_zero (cr_hash cr x) = false) ->
+         (forall x : bytes, bytes_ok (cr_hash cr x) = true) ->
+         (forall sk m : bytes, Datatypes.length (cr_sign cr sk m) = 64%nat) ->
+         (forall sk m : bytes, bytes_ok (cr_sign cr sk m) = true) ->
+         forall (f : option bool) (batch : list bytes) (c : core) (d : disk) (j : list sop) 
+           (ev : list event) (bs : list bytes) (sk : bytes) (c' : core) (w' : world) 
+           (x : N * N) (delta : list sop),
+         XInv cr c d bs ->
+         kp_secret (c_keypair c) = Some sk ->
+         sumN (map len (bs ++ batch)) <= u64_max ->
+         NODE_SIZE * (2 * N.of_nat (Datatypes.length (bs ++ batch))) <= u64_max ->
+         core_append cr f batch c {| w_disk := d; w_journal := j; w_events := ev |} = (c', w', Ok x) ->
+         w_journal w' = rev delta ++ j ->
+         forall k : nat,
+         exists dk : disk,
+           apply_sops d (firstn k delta) = Some dk /\
+           (exists (ck : core) (dk' : disk) (ops : list sop),
+              core_open cr None true dk = (dk', ops, Ok ck) /\
+              XInv cr ck dk' (if (k <? 2)%nat then bs else bs ++ batch) /\
+              c_keypair ck = c_keypair c /\ c_skip ck = 0).
+Proof. exact append_cut_recovers_X. Qed.
+
+Theorem C02_append_cut_observations :
+  forall cr : crypto,
+         crc_ok cr ->
+         (forall x : bytes, Datatypes.length (cr_hash cr x) = 32%nat) ->
+         (forall x : bytes, all_zero (cr_hash cr x) = false) ->
+         (forall x : bytes, bytes_ok (cr_hash cr x) = true) ->
+         (forall sk m : bytes, Datatypes.length (cr_sign cr sk m) = 64%nat) ->
+         (forall sk m : bytes, bytes_ok (cr_sign cr sk m) = true) ->
+         forall (f : option bool) (batch : list bytes) (c : core) (d : disk) (j : list sop) 
+           (ev : list event) (bs : list bytes) (sk : bytes) (c' : core) (w' : world) 
+           (x : N * N) (delta : list sop),
+         XInv cr c d bs ->
+         kp_secret (c_keypair c) = Some sk ->
+         sumN (map len (bs ++ batch)) <= u64_max ->
+         NODE_SIZE * (2 * N.of_nat (Datatypes.length (bs ++ batch))) <= u64_max ->
+         core_append cr f batch c {| w_disk := d; w_journal := j; w_events := ev |} = (c', w', Ok x) ->
+         w_journal w' = rev delta ++ j ->
+         forall k : nat,
+         exists dk : disk,
+           apply_sops d (firstn k delta) = Some dk /\
+           (exists (ck : core) (dk' : disk) (ops : list sop),
+              core_open cr None true dk = (dk', ops, Ok ck) /\
+              (obs_list ck dk' bs \/ obs_list ck dk' (bs ++ batch))).
+Proof. exact append_cut_observations. Qed.
+
+Theorem C02_crash_disk_reopens :
+  forall cr : crypto,
+         crc_ok cr ->
+         (forall x : bytes, Datatypes.length (cr_hash cr x) = 32%nat) ->
+         (forall x : bytes, all_zero (cr_hash cr x) = false) ->
+         (forall x : bytes, bytes_ok (cr_hash cr x) = true) ->
+         forall (kp : keypair) (d : disk) (bs : list bytes),
+         XDisk cr kp d bs ->
+         exists (c' : core) (d' : disk) (ops : list sop),
+           core_open cr None true d = (d', ops, Ok c') /\
+           XInv cr c' d' bs /\
+           c_keypair c' = kp /\
+           c_skip c' = 0 /\
+           d_tree d' = d_tree d /\
+           d_data d' = d_data d /\
+           d_bitfield d' = d_bitfield d /\ (ops = [] /\ d' = d \/ ops = [ST Oplog ENTRIES_OFFSET]).
+Proof. exact reopen_X. Qed.
+
+Theorem C02_crash_tolerant_invariant_from_stable :
+  forall (cr : crypto) (c : core) (d : disk) (bs : list bytes), DInv cr c d bs -> XInv cr c d bs.
+Proof. exact DInv_XInv. Qed.
+
+Theorem C02_crash_tolerant_invariant_observations :
+  forall cr : crypto,
+         (forall x : bytes, Datatypes.length (cr_hash cr x) = 32%nat) ->
+         (forall x : bytes, all_zero (cr_hash cr x) = false) ->
+         forall (c : core) (d : disk) (bs : list bytes), XInv cr c d bs -> obs_list c d bs.
+Proof. exact XInv_observations. Qed.
+
+Theorem C02_append_preserves_crash_tolerant_invariant :
+  forall cr : crypto,
+         crc_ok cr ->
+         (forall x : bytes, Datatypes.length (cr_hash cr x) = 32%nat) ->
+         (forall x : bytes, all_zero (cr_hash cr x) = false) ->
+         (forall x : bytes, bytes_ok (cr_hash cr x) = true) ->
+         (forall sk m : bytes, Datatypes.length (cr_sign cr sk m) = 64%nat) ->
+         (forall sk m : bytes, bytes_ok (cr_sign cr sk m) = true) ->
+         forall (f : option bool) (batch : list bytes) (c : core) (d : disk) (j : list sop) 
+           (ev : list event) (bs : list bytes) (sk : bytes) (c' : core) (w' : world) 
+           (r : res (N * N)),
+         XInv cr c d bs ->
+         kp_secret (c_keypair c) = Some sk ->
+         sumN (map len (bs ++ batch)) <= u64_max ->
+         NODE_SIZE * (2 * N.of_nat (Datatypes.length (bs ++ batch))) <= u64_max ->
+         core_append cr f batch c {| w_disk := d; w_journal := j; w_events := ev |} = (c', w', r) ->
+         r = Panic frame_msg \/
+         r = Ok (N.of_nat (Datatypes.length (bs ++ batch)), sumN (map len (bs ++ batch))) /\
+         XInv cr c' (w_disk w') (bs ++ batch) /\ c_keypair c' = c_keypair c.
+Proof. exact append_XInv. Qed.
+
+Theorem C02_history_with_crashes :
+  forall cr : crypto,
+         crc_ok cr ->
+         (forall x : bytes, Datatypes.length (cr_hash cr x) = 32%nat) ->
+         (forall x : bytes, all_zero (cr_hash cr x) = false) ->
+         (forall x : bytes, bytes_ok (cr_hash cr x) = true) ->
+         (forall sk m : bytes, Datatypes.length (cr_sign cr sk m) = 64%nat) ->
+         (forall sk m : bytes, bytes_ok (cr_sign cr sk m) = true) ->
+         forall (ops : list xop) (c : core) (d : disk) (j : list sop) (ev : list event) 
+           (bs : list bytes) (sk : bytes),
+         XInv cr c d bs ->
+         kp_secret (c_keypair c) = Some sk ->
+         sumN (map len (bs ++ xappended ops)) <= u64_max ->
+         NODE_SIZE * (2 * N.of_nat (Datatypes.length (bs ++ xappended ops))) <= u64_max ->
+         xrun_obs cr ops c {| w_disk := d; w_journal := j; w_events := ev |} = xspec_obs ops bs \/
+         (exists k : nat,
+            xrun_obs cr ops c {| w_disk := d; w_journal := j; w_events := ev |} =
+            firstn k (xspec_obs ops bs) ++ [XOAppend (Panic frame_msg)]).
+Proof. exact history_with_crashes_correct. Qed.
+
+Theorem C02_history_with_crashes_choice :
+  forall cr : crypto,
+         crc_ok cr ->
+         (forall x : bytes, Datatypes.length (cr_hash cr x) = 32%nat) ->
+         (forall x : bytes, all_zero (cr_hash cr x) = false) ->
+         (forall x : bytes, bytes_ok (cr_hash cr x) = true) ->
+         (forall sk m : bytes, Datatypes.length (cr_sign cr sk m) = 64%nat) ->
+         (forall sk m : bytes, bytes_ok (cr_sign cr sk m) = true) ->
+         forall (ops : list xop) (c : core) (d : disk) (j : list sop) (ev : list event) 
+           (bs : list bytes) (sk : bytes),
+         XInv cr c d bs ->
+         kp_secret (c_keypair c) = Some sk ->
+         sumN (map len (bs ++ xappended ops)) <= u64_max ->
+         NODE_SIZE * (2 * N.of_nat (Datatypes.length (bs ++ xappended ops))) <= u64_max ->
+         exists ch : list bool,
+           xrun_obs cr ops c {| w_disk := d; w_journal := j; w_events := ev |} = xspec_choice ops ch bs \/
+           (exists k : nat,
+              xrun_obs cr ops c {| w_disk := d; w_journal := j; w_events := ev |} =
+              firstn k (xspec_choice ops ch bs) ++ [XOAppend (Panic frame_msg)]).
+Proof. exact history_with_crashes_choice. Qed.
+
+Theorem C02_fresh_history_with_crashes :
+  forall cr : crypto,
+         crc_ok cr ->
+         (forall x : bytes, Datatypes.length (cr_hash cr x) = 32%nat) ->
+         (forall x : bytes, all_zero (cr_hash cr x) = false) ->
+         (forall x : bytes, bytes_ok (cr_hash cr x) = true) ->
+         (forall sk m : bytes, Datatypes.length (cr_sign cr sk m) = 64%nat) ->
+         (forall sk m : bytes, bytes_ok (cr_sign cr sk m) = true) ->
+         forall (kp : keypair) (sk : bytes) (ops : list xop),
+         keypair_ok kp = true ->
+         kp_secret kp = Some sk ->
+         sumN (map len (xappended ops)) <= u64_max ->
+         NODE_SIZE * (2 * N.of_nat (Datatypes.length (xappended ops))) <= u64_max ->
+         exists (d0 : disk) (ops0 : list sop) (c0 : core),
+           core_open cr (Some kp) false disk_empty = (d0, ops0, Ok c0) /\
+           (xrun_obs cr ops c0 {| w_disk := d0; w_journal := []; w_events := [] |} = xspec_obs ops [] \/
+            (exists k : nat,
+               xrun_obs cr ops c0 {| w_disk := d0; w_journal := []; w_events := [] |} =
+               firstn k (xspec_obs ops []) ++ [XOAppend (Panic frame_msg)])).
+Proof. exact fresh_history_with_crashes_correct. Qed.
+
+Theorem C02_panicking_append_recovers :
+  forall cr : crypto,
+         crc_ok cr ->
+         (forall x : bytes, Datatypes.length (cr_hash cr x) = 32%nat) ->
+         (forall x : bytes, all_zero (cr_hash cr x) = false) ->
+         (forall x : bytes, bytes_ok (cr_hash cr x) = true) ->
+         (forall sk m : bytes, Datatypes.length (cr_sign cr sk m) = 64%nat) ->
+         (forall sk m : bytes, bytes_ok (cr_sign cr sk m) = true) ->
+         forall (f : option bool) (batch : list bytes) (c : core) (d : disk) (j : list sop) 
+           (ev : list event) (bs : list bytes) (sk : bytes) (c' : core) (w' : world) 
+           (s : string),
+         XInv cr c d bs ->
+         kp_secret (c_keypair c) = Some sk ->
+         sumN (map len (bs ++ batch)) <= u64_max ->
+         NODE_SIZE * (2 * N.of_nat (Datatypes.length (bs ++ batch))) <= u64_max ->
+         core_append cr f batch c {| w_disk := d; w_journal := j; w_events := ev |} = (c', w', Panic s) ->
+         s = frame_msg /\
+         c' = c /\
+         w_events w' = ev /\
+         (exists o : sop,
+            w_journal w' = o :: j /\
+            apply_sop d o = Some (w_disk w') /\
+            (exists (ck : core) (dk' : disk) (ops : list sop),
+               core_open cr None true (w_disk w') = (dk', ops, Ok ck) /\
+               XInv cr ck dk' bs /\ c_keypair ck = c_keypair c)).
+Proof. exact append_panic_recovers. Qed.
+
+Theorem C02_make_read_only_every_cut_recovers_all_stores :
+  forall cr : crypto,
+         crc_ok cr ->
+         (forall x : bytes, Datatypes.length (cr_hash cr x) = 32%nat) ->
+         (forall x : bytes, all_zero (cr_hash cr x) = false) ->
+         (forall x : bytes, bytes_ok (cr_hash cr x) = true) ->
+         forall (c : core) (d : disk) (bs : list bytes) (sk : bytes) (k : nat),
+         DInv cr c d bs ->
+         kp_secret (c_keypair c) = Some sk ->
+         let np := (Datatypes.length (page_ops (c_bitfield c)) + Datatypes.length (node_ops (c_tree c)))%nat in
+         exists dk : disk,
+           apply_sops d (firstn k (ro_ops cr c)) = Some dk /\
+           (exists (dk' : disk) (ops : list sop) (ck : core),
+              core_open cr None true dk = (dk', ops, Ok ck) /\
+              d_tree dk' = d_tree dk /\
+              d_data dk' = d_data dk /\
+              d_bitfield dk' = d_bitfield dk /\
+              WInv cr ck dk' bs /\
+              same_reads c d ck dk' /\
+              hd_keypair (c_header ck) = c_keypair ck /\
+              kp_public (c_keypair ck) = kp_public (c_keypair c) /\
+              ((k <= np)%nat -> c_keypair ck = c_keypair c /\ i_writeable (core_info ck) = true) /\
+              ((np < k)%nat ->
+               c_keypair ck = {| kp_public := kp_public (c_keypair c); kp_secret := None |} /\
+               i_writeable (core_info ck) = false)).
+Proof. exact make_read_only_crash. Qed.
+
+Theorem C02_stable_state_is_crash_tolerant_with_clears :
+  forall (cr : crypto) (c : core) (d : disk) (bs : list bytes) (cl : N -> bool),
+         FInv cr c d bs cl -> YInv cr c d bs cl.
+Proof. exact FInv_YInv. Qed.
+
+Theorem C02_crash_disk_with_clears_reopens :
+  forall cr : crypto,
+         crc_ok cr ->
+         (forall x : bytes, Datatypes.length (cr_hash cr x) = 32%nat) ->
+         (forall x : bytes, all_zero (cr_hash cr x) = false) ->
+         (forall x : bytes, bytes_ok (cr_hash cr x) = true) ->
+         forall (kp : keypair) (d : disk) (bs : list bytes) (cl : N -> bool),
+         YDisk cr kp d bs cl ->
+         exists (c' : core) (d' : disk) (ops : list sop),
+           core_open cr None true d = (d', ops, Ok c') /\
+           YInv cr c' d' bs cl /\
+           c_keypair c' = kp /\
+           c_skip c' = 0 /\
+           d_tree d' = d_tree d /\
+           d_data d' = d_data d /\
+           d_bitfield d' = d_bitfield d /\ (ops = [] /\ d' = d \/ ops = [ST Oplog ENTRIES_OFFSET]).
+Proof. exact reopen_Y. Qed.
+
+Theorem C02_append_every_cut_recovers_with_clears :
+  forall cr : crypto,
+         crc_ok cr ->
+         (forall x : bytes, Datatypes.length (cr_hash cr x) = 32%nat) ->
+         (forall x : bytes, all_zero (cr_hash cr x) = false) ->
+         (forall x : bytes, bytes_ok (cr_hash cr x) = true) ->
+         (forall sk m : bytes, Datatypes.length (cr_sign cr sk m) = 64%nat) ->
+         (forall sk m : bytes, bytes_ok (cr_sign cr sk m) = true) ->
+         forall (f : option bool) (batch : list bytes) (c : core) (d : disk) (j : list sop) 
+           (ev : list event) (bs : list bytes) (cl : N -> bool) (sk : bytes) (c' : core) 
+           (w' : world) (x : N * N) (delta : list sop),
+         YInv cr c d bs cl ->
+         kp_secret (c_keypair c) = Some sk ->
+         sumN (map len (bs ++ batch)) <= u64_max ->
+         NODE_SIZE * (2 * N.of_nat (Datatypes.length (bs ++ batch))) <= u64_max ->
+         core_append cr f batch c {| w_disk := d; w_journal := j; w_events := ev |} = (c', w', Ok x) ->
+         w_journal w' = rev delta ++ j ->
+         forall k : nat,
+         exists dk : disk,
+           apply_sops d (firstn k delta) = Some dk /\
+           (exists (ck : core) (dk' : disk) (ops : list sop),
+              core_open cr None true dk = (dk', ops, Ok ck) /\
+              (if (k <? 2)%nat
+               then YInv cr ck dk' bs cl
+               else YInv cr ck dk' (bs ++ batch) (cl_mask cl (N.of_nat (Datatypes.length bs)))) /\
+              c_keypair ck = c_keypair c /\ c_skip ck = 0).
+Proof. exact append_cut_recovers_Y. Qed.
+
+Theorem C02_clear_every_cut_recovers :
+  forall cr : crypto,
+         crc_ok cr ->
+         (forall x : bytes, Datatypes.length (cr_hash cr x) = 32%nat) ->
+         (forall x : bytes, all_zero (cr_hash cr x) = false) ->
+         (forall x : bytes, bytes_ok (cr_hash cr x) = true) ->
+         forall (f : option bool) (c : core) (d : disk) (j : list sop) (ev : list event) 
+           (bs : list bytes) (cl : N -> bool) (start end_ : N) (c' : core) (w' : world) 
+           (r : res unit) (delta : list sop),
+         let n := N.of_nat (Datatypes.length bs) in
+         YInv cr c d bs cl ->
+         start < n ->
+         start < end_ ->
+         end_ <= u64_max ->
+         core_clear cr f start end_ c {| w_disk := d; w_journal := j; w_events := ev |} = (c', w', r) ->
+         w_journal w' = rev delta ++ j ->
+         r = Ok tt /\
+         (forall k : nat,
+          exists dk : disk,
+            apply_sops d (firstn k delta) = Some dk /\
+            (exists (ck : core) (dk' : disk) (ops : list sop),
+               core_open cr None true dk = (dk', ops, Ok ck) /\
+               YInv cr ck dk' bs (if (k <? 1)%nat then cl else cl_clear cl start end_) /\
+               c_keypair ck = c_keypair c /\ c_skip ck = 0)).
+Proof. exact clear_cut_recovers_Y. Qed.
+
+Theorem C02_crash_during_recovery_recovers :
+  forall cr : crypto,
+         crc_ok cr ->
+         (forall x : bytes, Datatypes.length (cr_hash cr x) = 32%nat) ->
+         (forall x : bytes, all_zero (cr_hash cr x) = false) ->
+         (forall x : bytes, bytes_ok (cr_hash cr x) = true) ->
+         forall (kp : keypair) (d : disk) (bs : list bytes) (cl : N -> bool),
+         YDisk cr kp d bs cl ->
+         exists (c' : core) (d' : disk) (ops : list sop),
+           core_open cr None true d = (d', ops, Ok c') /\
+           (forall k : nat, exists dk : disk, apply_sops d (firstn k ops) = Some dk /\ YDisk cr kp dk bs cl).
+Proof. exact reopen_cuts_Y. Qed.
+
+Theorem C02_history_with_crashes_in_appends_and_clears :
+  forall cr : crypto,
+         crc_ok cr ->
+         (forall x : bytes, Datatypes.length (cr_hash cr x) = 32%nat) ->
+         (forall x : bytes, all_zero (cr_hash cr x) = false) ->
+         (forall x : bytes, bytes_ok (cr_hash cr x) = true) ->
+         (forall sk m : bytes, Datatypes.length (cr_sign cr sk m) = 64%nat) ->
+         (forall sk m : bytes, bytes_ok (cr_sign cr sk m) = true) ->
+         forall (ops : list yop) (c : core) (d : disk) (j : list sop) (ev : list event) 
+           (bs : list bytes) (cl : N -> bool) (sk : bytes),
+         YInv cr c d bs cl ->
+         kp_secret (c_keypair c) = Some sk ->
+         wf_y ops (N.of_nat (Datatypes.length bs)) ->
+         sumN (map len (bs ++ yappended ops)) <= u64_max ->
+         NODE_SIZE * (2 * N.of_nat (Datatypes.length (bs ++ yappended ops))) <= u64_max ->
+         yrun cr ops c {| w_disk := d; w_journal := j; w_events := ev |} = yspec ops bs cl \/
+         (exists k : nat,
+            yrun cr ops c {| w_disk := d; w_journal := j; w_events := ev |} =
+            firstn k (yspec ops bs cl) ++ [YOAppend (Panic frame_msg)]).
+Proof. exact history_crash_clear_correct. Qed.
+
+Theorem C02_fresh_history_with_crashes_in_appends_and_clears :
+  forall cr : crypto,
+         crc_ok cr ->
+         (forall x : bytes, Datatypes.length (cr_hash cr x) = 32%nat) ->
+         (forall x : bytes, all_zero (cr_hash cr x) = false) ->
+         (forall x : bytes, bytes_ok (cr_hash cr x) = true) ->
+         (forall sk m : bytes, Datatypes.length (cr_sign cr sk m) = 64%nat) ->
+         (forall sk m : bytes, bytes_ok (cr_sign cr sk m) = true) ->
+         forall (kp : keypair) (sk : bytes) (ops : list yop),
+         keypair_ok kp = true ->
+         kp_secret kp = Some sk ->
+         wf_y ops 0 ->
+         sumN (map len (yappended ops)) <= u64_max ->
+         NODE_SIZE * (2 * N.of_nat (Datatypes.length (yappended ops))) <= u64_max ->
+         exists (d0 : disk) (ops0 : list sop) (c0 : core),
+           core_open cr (Some kp) false disk_empty = (d0, ops0, Ok c0) /\
+           (yrun cr ops c0 {| w_disk := d0; w_journal := []; w_events := [] |} =
+            yspec ops [] (fun _ : N => false) \/
+            (exists k : nat,
+               yrun cr ops c0 {| w_disk := d0; w_journal := []; w_events := [] |} =
+               firstn k (yspec ops [] (fun _ : N => false)) ++ [YOAppend (Panic frame_msg)])).
+Proof. exact fresh_history_crash_clear_correct. Qed.
+
+Theorem C02_creation_every_cut_recovers :
+  forall cr : crypto,
+         crc_ok cr ->
+         (forall x : bytes, Datatypes.length (cr_hash cr x) = 32%nat) ->
+         (forall x : bytes, all_zero (cr_hash cr x) = false) ->
+         (forall x : bytes, bytes_ok (cr_hash cr x) = true) ->
+         forall kp kp' : keypair,
+         keypair_ok kp = true ->
+         keypair_ok kp' = true ->
+         exists (d' : disk) (J : list sop) (c : core),
+           core_open cr (Some kp) false disk_empty = (d', J, Ok c) /\
+           (forall k : nat,
+            exists dk : disk,
+              apply_sops disk_empty (firstn k J) = Some dk /\
+              (core_open cr None true dk = (dk, [], Err EmptyStorage) /\
+               (exists (d2 : disk) (J2 : list sop) (c2 : core),
+                  core_open cr (Some kp') false dk = (d2, J2, Ok c2) /\
+                  FInv cr c2 d2 [] (fun _ : N => false) /\ c_keypair c2 = kp') \/
+               (exists c2 : core,
+                  core_open cr None true dk = (dk, [], Ok c2) /\
+                  FInv cr c2 dk [] (fun _ : N => false) /\ c_keypair c2 = kp))).
+Proof. exact creation_cut_recovers. Qed.
+
 Print Assumptions C02_stable_state_reopens.
 Print Assumptions C02_append_every_cut.
 Print Assumptions C02_flush_every_cut.
@@ -189,3 +597,30 @@ Print Assumptions C02_creation_every_cut.
 Print Assumptions C02_open_reads_layout.
 Print Assumptions C02_content_model_is_the_file.
 Print Assumptions C02_real_headers_fit_a_slot.
+Print Assumptions C02_append_every_cut_recovers_all_stores.
+Print Assumptions C02_append_every_cut_recovers_iterated.
+Print Assumptions C02_append_cut_observations.
+Print Assumptions C02_crash_disk_reopens.
+Print Assumptions C02_crash_tolerant_invariant_from_stable.
+Print Assumptions C02_crash_tolerant_invariant_observations.
+Print Assumptions C02_append_preserves_crash_tolerant_invariant.
+Print Assumptions C02_history_with_crashes.
+Print Assumptions C02_history_with_crashes_choice.
+Print Assumptions C02_fresh_history_with_crashes.
+Print Assumptions C02_panicking_append_recovers.
+Print Assumptions C02_make_read_only_every_cut_recovers_all_stores.
+Print Assumptions C02_stable_state_is_crash_tolerant_with_clears.
+Print Assumptions C02_crash_disk_with_clears_reopens.
+Print Assumptions C02_append_every_cut_recovers_with_clears.
+Print Assumptions C02_clear_every_cut_recovers.
+Print Assumptions C02_crash_during_recovery_recovers.
+Print Assumptions C02_history_with_crashes_in_appends_and_clears.
+Print Assumptions C02_fresh_history_with_crashes_in_appends_and_clears.
+Print Assumptions C02_creation_every_cut_recovers.
+Print Assumptions CrashCore3.toy_history_with_crashes.
+Print Assumptions CrashCore3.toy_every_cut_of_a_flushing_append.
+Print Assumptions CrashClear3.toy_history_crash_clear.
+Print Assumptions CrashClear3.toy_every_cut_of_a_flushing_clear.
+Print Assumptions CrashClear3.toy_every_cut_of_a_truncating_clear.
+Print Assumptions CrashClear4.toy_creation_cuts.
+Print Assumptions ReadOnly.toy_read_only_crash.
